@@ -300,7 +300,16 @@ def paired(M, T, files, kind: str, pos: str, faults: Tuple[str, ...], raise_in_b
     escaped = None
     try:
         try:
-            with trace_calls(logger, 0, lambda code: code.co_filename in files, sample_rate):
+            cm = trace_calls(logger, 0, lambda code: code.co_filename in files, sample_rate)
+            if with_profiler and raise_in_block:
+                # the context manager was created while one profiler was installed and is ENTERED under another one:
+                # the profiler to put back is the one in place at entry
+                def other_profiler(frame, event, arg):
+                    prof_calls.append("other:" + event)
+
+                sys.setprofile(other_profiler)
+                before = sys.getprofile()
+            with cm:
                 traced = observe(T, thunk, False)
                 if raise_in_block:
                     raise KeyError("program's own exception")
@@ -456,8 +465,51 @@ print("sqlite-datetime", _c.execute("select at from t order by n").fetchall())
 print("sqlite-adapters", sorted(k[0].__name__ for k in sqlite3.adapters), sorted(sqlite3.converters))
 print("state", sys.getrecursionlimit(), gc.isenabled(), sys.excepthook is sys.__excepthook__, signal.getsignal(signal.SIGINT) is signal.default_int_handler,
       logging.getLogger().level, len(logging.getLogger().handlers), sys.getswitchinterval(), sys.displayhook is sys.__displayhook__)
+# the program's own logging configuration (first basicConfig wins: nobody may have configured the root logger before)
+logging.basicConfig(stream=sys.stdout, format="LOG %(levelname)s %(name)s %(message)s", level=logging.WARNING)
+logging.getLogger("app").debug("debug record (must stay hidden)")
+logging.getLogger("app").warning("warning record")
 if "--fail" in sys.argv:
     raise SystemExit(3)
+'''
+
+API_PROG = '''
+import contextlib
+import os
+import sys
+import warnings
+
+
+def work(x):
+    return [x]
+
+
+def noisy():
+    warnings.warn("once per location", UserWarning)
+
+
+def session():
+    if os.environ.get("C03_TRACE") == "1":
+        import monkeytype
+
+        return monkeytype.trace()
+    return contextlib.nullcontext()
+
+
+with warnings.catch_warnings(record=True) as seen:
+    warnings.simplefilter("default")
+    noisy()
+    with session():
+        work(1)
+        noisy()
+    noisy()
+    with session():
+        work("a")
+    noisy()
+print("warnings shown", len(seen))
+print("filters", len(warnings.filters))
+import gc, logging, sqlite3
+print("state", sys.getrecursionlimit(), gc.isenabled(), logging.getLogger().level, len(logging.getLogger().handlers), sorted(k[0].__name__ for k in sqlite3.adapters), sys.getprofile())
 '''
 
 
@@ -477,7 +529,8 @@ def cli_differential(ctx: Ctx) -> Result:
     for style in ("script", "module"):
         for args in (["a", "b"], ["--fail"], []):
             plain = py + ([f"{name}.py"] if style == "script" else ["-m", name]) + args
-            traced = py + ["-m", "monkeytype", "run"] + ([f"{name}.py"] if style == "script" else ["-m", name]) + args
+            verbose = ["-v"] if args == ["a", "b"] else []   # one of the three argument lists also runs with the CLI's -v
+            traced = py + ["-m", "monkeytype"] + verbose + ["run"] + ([f"{name}.py"] if style == "script" else ["-m", name]) + args
             a = subprocess.run(plain, cwd=str(d), env=env, capture_output=True, text=True)
             b = subprocess.run(traced, cwd=str(d), env=env, capture_output=True, text=True)
             res.states += 1
@@ -492,6 +545,23 @@ def cli_differential(ctx: Ctx) -> Result:
                 res.violate(Violation(ID, "stdout-differs", f"cli-run:{style}", case, f"`{' '.join(plain[3:])}` prints {a.stdout!r}; under `monkeytype run{' -m' if style == 'module' else ''}` it prints {b.stdout!r} (stderr tail {b.stderr[-200:]!r})"))
             if a.returncode != b.returncode:
                 res.violate(Violation(ID, "exception-differs", f"cli-run:{style}", case, f"exit status {a.returncode} untraced, {b.returncode} under monkeytype run (stderr tail {b.stderr[-200:]!r})"))
+    # the tracing API used in mid-program with the default configuration (real store logger, SQLite file in the cwd):
+    # the same script with the sessions replaced by no-ops must print the same
+    (d / f"{name}_api.py").write_text(API_PROG)
+    outs = []
+    for on in ("0", "1"):
+        r = subprocess.run(py + [f"{name}_api.py"], cwd=str(d), env=dict(env, C03_TRACE=on), capture_output=True, text=True)
+        outs.append(r)
+    res.states += 1
+    res.evaluations += 1
+    res.validated += 1
+    res.transitions += 2
+    res.nontrivial_n += 1
+    case = {"kind": "CLI", "pos": "api", "faults": [], "raise": False, "profiler": False, "cli": True}
+    if "warnings shown" not in outs[0].stdout:
+        raise HarnessError(f"API baseline program did not run: {outs[0].stdout!r} {outs[0].stderr[-300:]!r}")
+    if outs[0].stdout != outs[1].stdout or outs[0].returncode != outs[1].returncode:
+        res.violate(Violation(ID, "stdout-differs", "api-sessions-in-mid-program", case, f"script with two monkeytype.trace() sessions prints {outs[1].stdout!r} (exit {outs[1].returncode}); with the sessions replaced by no-ops {outs[0].stdout!r} (exit {outs[0].returncode}); stderr tail {outs[1].stderr[-200:]!r}"))
     res.oblige("cli-run-differential", True)
     return res
 
